@@ -158,7 +158,7 @@ theorem decClade_elem (N : NumCodec) (NL : NumLaws N) (name : String) (bl conf :
     | none => simp [blElems]
     | some q =>
       have := NL.parse_fmt q (hbl q rfl)
-      simp [blElems, Xml.kids, chardata_txt, this]
+      simp [blElems, floatVals, Xml.kids, chardata_txt, this]
   have hcf : floatField N "confidence" (nameElems name ++ (blElems N bl ++ confElems N conf) ++ K) =
       (match conf with | some q => .val q | none => .absent) := by
     unfold floatField
@@ -167,7 +167,7 @@ theorem decClade_elem (N : NumCodec) (NL : NumLaws N) (name : String) (bl conf :
     | none => simp [confElems]
     | some q =>
       have := NL.parse_fmt q (hconf q rfl)
-      simp [confElems, Xml.kids, chardata_txt, this]
+      simp [confElems, floatVals, Xml.kids, chardata_txt, this]
   have htax : childrenTagged "taxonomy" (nameElems name ++ (blElems N bl ++ confElems N conf) ++ K) = [] := by
     rw [hct "taxonomy" (by decide)]; simp
   rw [decClade]
